@@ -1132,6 +1132,59 @@ U_LOOPSTATE = Unit(P + '/main[reader loops]', ['main'], t_loop_state, SCH, kind=
 UNITS = UNITS + [U_LOOPSTATE]
 
 
+# ---------------------------------------------------------------- the frequency sweep runs at least once
+def t_sweep_setup(eng):
+    """the statement of main() that normalises --frequency-steps / --frequency-increment before the sweep loop: whatever step
+    count passed the option check (None, or an integer that is not negative) and whatever increment was given (None, zero, or
+    any other number), the loop `for k in range (args.frequency_steps)` runs at least once -- otherwise main() would end with
+    neither a report nor a diagnostic."""
+    n = P + '/main[sweep set-up]/'
+    g = eng.get_fnode('main')
+    loops = [st for st in g.body if isinstance(st, ast.For) and ast.unparse(st.iter).replace(' ', '') == 'range(args.frequency_steps)']
+    if len(loops) != 1:
+        from pyvc.source import Unresolved
+        raise Unresolved('the sweep loop `for k in range (args.frequency_steps)` of main')
+    k = g.body.index(loops[0])
+    # the statements directly in front of the loop that assign to args.frequency_steps / args.frequency_increment
+    pre = []
+    j = k - 1
+    while j >= 0 and isinstance(g.body[j], ast.If) and any(
+            isinstance(t, ast.Attribute) and isinstance(t.ctx, ast.Store) and t.attr.startswith('frequency_') for t in ast.walk(g.body[j])):
+        pre.insert(0, g.body[j])
+        j -= 1
+    eng.oblige(n + 'normalisation-found', len(pre) >= 1, detail=str(len(pre)))
+    sc = eng.choose(2)
+    ic = eng.choose(3)
+    steps = None if sc == 0 else fresh_int('steps')
+    if sc == 1:
+        eng.assume(r_cmp('>=', steps, 0))          # the option check in front rejects negative counts
+    inc = [None, Fraction(0), fresh_real('inc')][ic]
+    if ic == 2:
+        eng.assume(r_cmp('!=', inc, 0))
+    args = MS.args_ns(eng, frequency_steps=steps, frequency_increment=inc)
+    out = MS.run_stmts(eng, pre, {'args': args})
+    eng.cover('sweep-%d-%d' % (sc, ic))
+    eng.oblige(n + 'normalisation-completes', out.kind == 'normal', detail='%s %s' % (out.kind, out.exc))
+    got = args.fields.get('frequency_steps')
+    eng.oblige(n + 'the-sweep-loop-runs-at-least-once', got is not None and not isinstance(got, bool) and bterm(r_cmp('>=', got, 1)))
+    gi = args.fields.get('frequency_increment')
+    eng.oblige(n + 'the-increment-is-a-number-when-the-loop-uses-it', gi is not None)
+
+
+class _ZeroStepsPass(ast.NodeTransformer):
+    def visit_If(self, node):
+        self.generic_visit(node)
+        if ast.unparse(node.test).replace(' ', '') == 'notargs.frequency_stepsornotargs.frequency_increment':
+            node.test = ast.parse('args.frequency_steps is None or not args.frequency_increment').body[0].value
+        return node
+
+
+U_SWEEP = Unit(P + '/main[sweep set-up]', ['main'], t_sweep_setup, SCH,
+               slices={'main': 'the `if` statement(s) directly in front of the sweep loop that assign args.frequency_steps / _increment'},
+               canaries=[Canary('zero-steps-reach-the-loop', 'main', _ZeroStepsPass, [P + '/main[sweep set-up]/the-sweep-loop'])])
+UNITS = UNITS + [U_SWEEP]
+
+
 # a load that the option readers accept must not make the numeric stage divide by zero: the constructors the readers call
 # are under contract with C08 (series RLC: no pole at a positive frequency, an explicit C = 0 is "no capacitor"; skin
 # effect: only positive conductivities are constructed); their obligations are part of this check as well
